@@ -126,7 +126,7 @@ def run(ctx: Check) -> int:
     # ---- recorded engine traces: correspondence incl. time stamps, and the oracle on the same runs
     cases = corpus_cases()
     n_corpus = len(cases)
-    cases += [tagrep.gen_case(rng, malformed=(i % 6 == 5)) for i in range(ctx.n(60, 1200))]
+    cases += [tagrep.gen_case(rng, malformed=(i % 6 == 5)) for i in range(ctx.n(45, 1200))]
     results: dict[int, dict] = {}
 
     def traced(c):
@@ -174,7 +174,7 @@ def run(ctx: Check) -> int:
         ctx.evaluations += 1
 
     # ---- unit operations with adversarial time arguments (zero stamp, tick numbers, earlier times)
-    unit_cases = [tagrep.gen_unit_ops(rng, rng.randrange(8, 40)) for _ in range(ctx.n(250, 5000))]
+    unit_cases = [tagrep.gen_unit_ops(rng, rng.randrange(8, 40)) for _ in range(ctx.n(150, 5000))]
     cache: dict[int, tuple[list[str], list[str]]] = {}
 
     def unit(c):
@@ -187,7 +187,7 @@ def run(ctx: Check) -> int:
 
     # ---- more oracle runs; some with a wall clock that advances inside the tick
     tolerated = [0]
-    more = [(tagrep.gen_case(rng, malformed=(i % 6 == 5)), SKEW if i % 4 == 3 else 0.0) for i in range(ctx.n(80, 3000))]
+    more = [(tagrep.gen_case(rng, malformed=(i % 6 == 5)), SKEW if i % 4 == 3 else 0.0) for i in range(ctx.n(60, 3000))]
 
     def watch(cs):
         c, skew = cs
